@@ -33,6 +33,7 @@ type OptConstraints struct {
 	NoTinyManifest  bool
 	LargeBuffers    bool // write buffer >= 16 KiB (for workloads that must not flush constantly)
 	Comparer        comparer.Comparer
+	NonInjective    bool // one option set in eight uses ZeroPad (distinct byte strings that are one user key; no filter)
 }
 
 // RandomOptions draws a coherent option set: CompactionL0Trigger < WriteL0SlowdownTrigger
@@ -163,6 +164,11 @@ func RandomOptions(r *rand.Rand, c OptConstraints) OptSet {
 		} else {
 			o.Comparer = Comparers[r.Intn(len(Comparers))]
 		}
+	}
+	if c.NonInjective && c.Comparer == nil && !c.DefaultComparer && !c.OnlyBytewise && r.Intn(8) == 0 {
+		o.Comparer = ZeroPad{}
+		o.Filter = nil // a bloom filter over raw key bytes cannot serve a comparer that identifies distinct byte strings
+		set("Filter", "nil")
 	}
 	set("Comparer", o.Comparer.Name())
 	return OptSet{O: o, Desc: d}
